@@ -178,6 +178,33 @@ func (c16) Build(tier string, seed uint64) []any {
 			add(&c16Case{Gen: "frames", Enc: "codec" + ts, W: 8 + r.Intn(60), H: 8 + r.Intn(60), C: spp, P: bs, BA: ba, Sel: 3 + r.Intn(3), Class: "noise", CSeed: r.U64()})
 		}
 	}
+	// (htblocks) thousands of small HT code-blocks per image with content whose blocks start with
+	// all-zero quads (MEL stream opening with 1-bits) and carry MagSgn streams of every length:
+	// the HT segment layout MagSgn || MEL || VLC puts the last MagSgn byte next to the first MEL byte
+	nHT := 256
+	if th {
+		nHT = 1500
+	}
+	for i := 0; i < nHT; i++ {
+		r := gen.Sub(seed, "C16", "htblocks", i)
+		j := &j2kCase{Gen: "htblocks"}
+		randJ2KConfig(r, j)
+		j.W, j.H = 128+r.Intn(129), 128+r.Intn(129)
+		j.P, j.C, j.Signed = gen.Pick(r, 8, 8, 12, 16), 1, false
+		j.Layers, j.Prog, j.PW, j.PH = 1, 2, 0, 0
+		j.CBW, j.CBH = gen.Pick(r, 4, 4, 8), gen.Pick(r, 4, 4, 8)
+		j.Levels = gen.Pick(r, 1, 2, 3, 5)
+		j.Quality = 30 + r.Intn(70)
+		j.MCT = false
+		j.Class = gen.Pick(r, "smooth", "specks", "varnoise", "annot", "impulses", "edges")
+		if i%4 != 3 {
+			// 16x16 code-blocks aligned with the stripes of the flatnoise class
+			j.CBW, j.CBH, j.Levels, j.Class = 16, 16, gen.Pick(r, 1, 1, 2), "flatnoise"
+			j.W, j.H = 256, 256
+		}
+		enc := gen.Pick(r, "htj2k", "htj2k", "htj2klossy")
+		add(&c16Case{Gen: "htblocks", Enc: enc, J: j, Class: j.Class, W: j.W, H: j.H, C: j.C, P: j.P})
+	}
 	// 16-bit-field extremes
 	for i, enc := range []string{"baseline", "extended", "lossless", "sv1", "jls", "jlsnear", "j2k", "rle"} {
 		for _, g := range [][2]int{{65535, 1}, {1, 65535}} {
